@@ -41,8 +41,8 @@ def seq_of(e: ast.expr) -> Optional[Seq]:
         return Seq("elems", (t,), +1)
     if isinstance(e, ast.Subscript) and isinstance(e.slice, ast.Slice) and e.slice.lower is None and e.slice.step is None:
         inner = seq_of(e.value)
-        if inner is not None and inner.kind == "elems" and inner.direction == +1:
-            return Seq("elems", inner.bases, +1, True, norm(e.slice.upper) if e.slice.upper is not None else inner.bound)
+        if inner is not None and inner.kind in ("elems", "enum") and inner.direction == +1:
+            return Seq(inner.kind, inner.bases, +1, True, norm(e.slice.upper) if e.slice.upper is not None else inner.bound)
     if isinstance(e, ast.Subscript) and isinstance(e.slice, ast.Slice) and e.slice.lower is None and e.slice.upper is None \
             and e.slice.step is not None and norm(e.slice.step) == "-1":
         inner = seq_of(e.value)
@@ -66,6 +66,9 @@ def seq_of(e: ast.expr) -> Optional[Seq]:
                 if a.direction == -1 and a.bound == "" and b.bound == "":
                     aligned = False        # reversed whole lists of different length pair the wrong elements
                 return Seq("pairs", a.bases + b.bases, a.direction, aligned, a.bound)
+            # zip(keys, enumerate(cvals)[:n]): name paired with (index, value), both from the start
+            if a is not None and b is not None and a.kind == "elems" and b.kind == "enum" and a.direction == b.direction == +1:
+                return Seq("pairs_enum", a.bases + b.bases, +1, True, b.bound)
         if f == "range":
             args = e.args
             if len(args) == 1:
@@ -141,6 +144,10 @@ def cval_application(repo: Repo) -> Application:
                    (sq.bases == (CVALS, KEYS) and norm(name_e) == b and norm(raw_e) == a)
         positional = order_ok and sq.aligned
         bounded = True                     # zip stops at the shorter list / the common prefix
+    elif sq.kind == "pairs_enum" and isinstance(tg, ast.Tuple) and len(tg.elts) == 2 and isinstance(tg.elts[1], ast.Tuple) and len(tg.elts[1].elts) == 2 \
+            and sq.bases == (KEYS, CVALS):
+        positional = norm(name_e) == norm(tg.elts[0]) and norm(raw_e) == norm(tg.elts[1].elts[1]) and sq.aligned
+        bounded = True
     # bound: on the way to the call the index is known to be < len(keys)
     if bounded is None and sq.kind in ("enum", "index"):
         ivar = norm(tg.elts[0]) if isinstance(tg, ast.Tuple) else norm(tg)
